@@ -293,12 +293,17 @@ func negative(c *core.Ctx) {
 		o := &gen.GeomOpts{Coord: gen.FiniteBitsCoord, MaxMembers: 3, MaxVerts: 4, MinVerts: 1, MinMembers: 1, MaxDepth: 2}
 		k := []int{gen.KCollection, gen.KBounds}[r.Intn(2)]
 		g := gen.RandGeomKind(r, o, k, 0)
+		if r.Chance(0.1) {
+			g = nil // no geometry at all
+			c.Count("neg.nil_geometry")
+		}
 		detail := map[string]interface{}{"geometry": gen.Dump(g)}
 		c.Guard("geojson.Encode(unsupported)", detail, func() {
 			b, err := geojson.Encode(g)
 			if err == nil {
 				c.Violate(fmt.Sprintf("unsupported-accepted:%T", g), fmt.Sprintf("geojson.Encode(%T) returned %q instead of an error", g, core.Trunc(string(b), 80)), detail)
 			} else {
+				_ = err.Error() // the report must be printable
 				c.Count("neg.unsupported_rejected")
 			}
 		})
